@@ -266,6 +266,29 @@ func ruleC02RefSiblings(c *Ctx) {
 					okG = true
 				}
 			}
+			if !okG {
+				// or an earlier exit: a test of $ref under the draft-07 test one of whose outcomes never reaches the interpretation of $id
+				core.EachInstr(call.Parent(), func(j ssa.Instruction) {
+					ifi, isIf := j.(*ssa.If)
+					if !isIf || !c.mentionsField(ifi.Cond, "Schema.Ref", 6) {
+						return
+					}
+					draftToo := c.mentionsField(ifi.Cond, "Resolved.draft", 6)
+					for _, g := range guardsOf(ifi) {
+						if c.mentionsField(g.Cond, "Resolved.draft", 6) {
+							draftToo = true
+						}
+					}
+					if !draftToo {
+						return
+					}
+					for _, succ := range ifi.Block().Succs {
+						if succ != call.Block() && !core.Reachable(succ, call.Block(), map[*ssa.BasicBlock]bool{ifi.Block(): true}) && ifi.Block().Dominates(call.Block()) {
+							okG = true
+						}
+					}
+				})
+			}
 			c.R.Check(okG, rule, "id-beside-ref:"+core.FuncName(fn), c.pos(call), "the $id is interpreted only when it is not (draft-07 and beside $ref)", "an $id beside $ref establishes a base URI even under draft-07 (no guard mentioning both the draft and $ref)")
 		})
 	}
